@@ -1297,6 +1297,11 @@ class TLSConnection(TLSRecordLayer):
                                                "an (EC)DH group")
         if sr_kex:
             sr_kex = sr_kex.server_share
+            if sr_kex is None:
+                for result in self._sendError(
+                        AlertDescription.decode_error,
+                        "Empty key_share extension in ServerHello"):
+                    yield result
             self.ecdhCurve = sr_kex.group
             cl_key_share_ex = clientHello.getExtension(ExtensionType.key_share)
             cl_kex = next((i for i in cl_key_share_ex.client_shares
